@@ -1,3 +1,86 @@
 import Driver.Common
-/-! Model driver for C17 — not built yet. -/
-def main (_args : List String) : IO Unit := pure ()
+import Logrange.Model.LineReader
+import Logrange.Model.ScanWorker
+import Logrange.Model.Descs
+import Logrange.Generated.C17
+/-! Model driver for C17 (collector: line reader, parser offsets, scanner worker LTS, mergeDescs). Requests:
+
+* `lr <B> <start> <piece>*`  — pieces: hex bytes (a chunk the source will return), `E` (the source reports EOF once),
+  `X` (the context is cancelled while a Read runs). `readLine` is called until it answers "closed"; a clean `eof`
+  is printed and the calls go on (the file may grow later). Answer: `<hex line | eof>* closed:<pending hex> pos=<n>`.
+* `sw <recsPerEvent> <0|1|code> <start> <label>*` — the worker LTS; labels `step r<hex> eof err send conf set wake
+  stop cancel persist`. Answer: the observable fields of the final state.
+* `merge <nOld> (<id> <offset> <size>)* <nNew> (<id> <offset> <size>)*` — `mergeDescs`; answer per new descriptor
+  `<id>:<offset>:<size>:<kept 0|1>`.
+-/
+open Go Driver Logrange.LineReader Logrange.ScanWorker Logrange.Descs
+
+def parsePiece (t : String) : Piece :=
+  if t == "E" then .eof else if t == "X" then .cancel else .data (unhex t)
+
+def lrLoop (B : Nat) : Nat → Parser → List String → List String × Parser
+  | 0, p, acc => (("oof" :: acc).reverse, p)
+  | fuel+1, p, acc =>
+    match readLine B p.lr with
+    | (s', .line l) => lrLoop B fuel { lr := s', pos := p.pos + l.length } (hex l :: acc)
+    | (s', .eof) => lrLoop B fuel { p with lr := s' } ("eof" :: acc)
+    | (s', .closed q) => ((s!"closed:{hex q}" :: acc).reverse, { p with lr := s' })
+    | (s', .oof q) => ((s!"oof:{hex q}" :: acc).reverse, { p with lr := s' })
+
+def runLr (B start : Nat) (pieces : List Piece) : String :=
+  let p := setStreamPos start pieces
+  let fuel := measure pieces + pieces.length + 8
+  let (outs, p') := lrLoop B fuel p []
+  " ".intercalate outs ++ s!" pos={p'.pos}"
+
+def parseLabel (t : String) : Option L :=
+  if t == "step" then some .step
+  else if t == "eof" then some (.next .eof)
+  else if t == "err" then some (.next .err)
+  else if t == "send" then some .send
+  else if t == "conf" then some .confirm
+  else if t == "set" then some .setOffset
+  else if t == "wake" then some .wake
+  else if t == "stop" then some .stopOnEOF
+  else if t == "cancel" then some .cancel
+  else if t == "persist" then some .persist
+  else if t.startsWith "r" then some (.next (.record (unhex (t.drop 1).toString)))
+  else none
+
+def showPc : Pc → String
+  | .top => "top" | .sampled _ => "sampled" | .got _ _ _ => "got" | .sending _ _ => "sending"
+  | .confirming _ _ => "confirming" | .setting _ _ => "setting" | .sleeping _ _ => "sleeping"
+  | .tail _ _ _ => "tail" | .done => "done"
+
+def b01 (b : Bool) : String := if b then "1" else "0"
+
+def showS (s : S) : String :=
+  s!"pc={showPc s.pc} offset={s.offset} persisted={s.persisted} pos={s.pos} confirmed={bytesOf s.confirmed} " ++
+  s!"events={s.ends.length} stoppedByEof={b01 s.stoppedByEof} eofSeen={b01 s.eofSeen} dropped={b01 s.dropped}"
+
+def parseDescs : Nat → List String → List Desc × List String
+  | 0, r => ([], r)
+  | n+1, id :: off :: sz :: r =>
+    let (ds, r') := parseDescs n r
+    (⟨unhex id, off.toNat!, sz.toNat!⟩ :: ds, r')
+  | _, r => ([], r)
+
+def step (_ : Unit) (toks : List String) : Unit × String :=
+  match toks with
+  | "lr" :: b :: start :: pieces => ((), runLr b.toNat! start.toNat! (pieces.map parsePiece))
+  | "sw" :: k :: sb :: start :: labels =>
+    let sample := if sb == "code" then Logrange.Generated.C17.stateSampledBeforeNextRecord else sb == "1"
+    match labels.mapM parseLabel with
+    | some ls => ((), showS (run ⟨k.toNat!, sample⟩ (init start.toNat!) ls))
+    | none => ((), "bad-op")
+  | "merge" :: nOld :: rest =>
+    let (old, r1) := parseDescs nOld.toNat! rest
+    match r1 with
+    | nNew :: r2 =>
+      let (new, _) := parseDescs nNew.toNat! r2
+      let outs := (mergeDescs old new).map (fun (d, k) => s!"{hex d.id}:{d.offset}:{d.lastSeenSize}:{b01 k}")
+      ((), if outs.isEmpty then "-" else " ".intercalate outs)
+    | [] => ((), "bad-op")
+  | _ => ((), "bad-op")
+
+def main (args : List String) : IO Unit := Driver.run step () args
